@@ -77,9 +77,37 @@ def gen_cases(rng, tier):
     extra += [X.set_([X.tup([("c d", N(1))]), X.tup([("c d", N(2))])]), X.set_([X.tup([("a,b", N(1)), ("c|d", N(2))]), X.tup([("a,b", N(3)), ("c|d", N(4))])]),
               X.set_([X.tup([("", N(1))]), X.tup([("", N(2))])])]
     out += [("extra %d" % i, e) for i, e in enumerate(extra)]
+    # attribute names that look like syntax, alone in a tuple, as the heading of a relation (two rows), two of them, nested
+    NAMES = ["a, b", "first, last", "x, y, z", "a,b", "a b", ",", ", ", "|", "a|b", "(", ")", "a)", "(a", ":", "a: b", "\"", "'", "`", " ", " a", "a ",
+             "@", "@x", "1a", "a-b", "a.b", "...", "\\", "\u00e9", "", "true", "let", "a\nb", "{", "}", "|a, b|", "a,", ", a"]
+    for i, nm in enumerate(NAMES):
+        other = NAMES[(i * 7 + 3) % len(NAMES)]
+        out.append(("attrname", X.tup([(nm, N(1))])))
+        out.append(("attrname rel", X.set_([X.tup([(nm, N(1))]), X.tup([(nm, N(2))])])))
+        if other != nm:
+            out.append(("attrname rel2", X.set_([X.tup([(nm, N(1)), (other, N(2))]), X.tup([(nm, N(3)), (other, N(4))])])))
+        out.append(("attrname nested", X.arr([X.tup([("k", X.set_([X.tup([(nm, N(1))]), X.tup([(nm, N(2))])]))])])))
     for i in range(400 if tier == "quick" else 4000):
         out.append(("rand", rand_value(rng)))
-    return [{"id": i, "label": l, "ast": e, "src": X.src(e)} for i, (l, e) in enumerate(out)]
+    cases = [{"id": i, "label": l, "ast": e, "src": X.src(e)} for i, (l, e) in enumerate(out)]
+    # numbers whose shortest decimal form is under 15 characters: powers of ten around the switch to exponent notation,
+    # the extremes of the double range, and subnormals (1 ulp apart) - alone and inside a container
+    import struct
+    nums = ["0", "1", "0.1", "0.5", "1.5", "100", "1e21", "1e20", "123456789012", "1e-7", "1e-6", "0.000001", "1.5e300", "1e308", "1.7e308", "5e-324", "1e-323",
+            "2.5e-310", "0.333333333333", "1234.5678", "9007199254740993", "4.946e-321", "1.003e-321", "4.94006e-319", "2.2250738585e-308", "1e-300", "7e22", "1e15", "1e16"]
+    for _ in range(120 if tier == "quick" else 3000):
+        bits = rng.randrange(1, 1 << rng.choice([10, 12, 16, 20, 24, 27, 40, 52]))
+        nums.append(repr(struct.unpack("<d", struct.pack("<Q", bits))[0]))
+    for _ in range(60 if tier == "quick" else 1500):
+        nums.append(repr(rng.choice([1, -1]) * rng.random() * 10 ** rng.randrange(-320, 309)))
+    for t in nums:
+        t = t if not t.startswith("-") else "(%s)" % t
+        if len(t.strip("()-")) >= 15:
+            t = "%.8g" % float(t.strip("()"))
+        cases.append({"id": len(cases), "label": "number", "src": t})
+        if rng.random() < 0.3:
+            cases.append({"id": len(cases), "label": "number nested", "src": "(a: [{%s: {%s}}])" % (t, t)})
+    return cases
 
 
 def num_ok(d):
@@ -175,7 +203,7 @@ def main(tier, seed, replay=None):
                 dist += 1
     step = max(1, len(cases) // 8)
     run.cov.update({"evaluations": len(cases) + len(second), "distinct_nontrivial": dist,
-                    "rule": "values from the shared pool (every representation), every control character / quote / backslash / non-BMP rune alone, in context and inside attribute names, offset and sparse sequences, multi-valued dicts, @neg wrappers, plus random nested values; each is printed (fu.Repr), the text evaluated again (syntax.EvaluateExpr) and the canonical dumps and printed forms compared; distinct by printed form, non-trivial = non-empty value that round-trips; numbers restricted to those printing in < 15 characters",
+                    "rule": "values from the shared pool (every representation), every control character / quote / backslash / non-BMP rune alone, in context and inside attribute names, offset and sparse sequences, multi-valued dicts, @neg wrappers, 38 attribute names that look like syntax (`a, b`, `|`, `(`, `:`, keywords, ...) in tuples and as relation headings, numbers around the switch to exponent notation, at the extremes of the double range and subnormals, plus random nested values; each is printed (fu.Repr), the text evaluated again (syntax.EvaluateExpr) and the canonical dumps and printed forms compared; distinct by printed form, non-trivial = non-empty value that round-trips; numbers restricted to those printing in < 15 characters",
                     "samples": [(o1.get(cases[i]["id"]) or {}).get("repr") for i in range(0, len(cases), step)][:8],
                     "outcome_histogram": hist, "exhaustive": False})
     run.assumptions = ["strconv float formatting and the wbnf grammar engine are exercised, not modelled",
